@@ -30,7 +30,8 @@ type base struct {
 	s0       snap
 	a1       snap // store after the first fault-free run
 	a1Masked snap
-	calls    int // API calls of the first fault-free run
+	calls    int      // API calls of the first fault-free run
+	kinds    []string // kind addressed by each call of that run
 	ok       bool
 }
 
@@ -103,6 +104,12 @@ func sequence(c *kit.Ctx, sc *scenario) *base {
 		snaps = append(snaps, s)
 		if i == 1 {
 			b.calls, b.a1 = r.Calls, s
+			b.kinds = make([]string, r.Calls)
+			for _, e := range w.Log(r.LogFrom) {
+				if e.Actor == "init" && e.Call < len(b.kinds) {
+					b.kinds[e.Call] = e.Key.Kind
+				}
+			}
 		}
 		c.Eval(fmt.Sprintf("%s|seq|run%d", sc.Name, i), len(b.s0) > 0 || i > 1)
 	}
@@ -193,6 +200,28 @@ func aborted(c *kit.Ctx, fc faultCase) {
 	}
 }
 
+// pick selects the fault outcomes injected at call index k of scenario i. Thorough: all three
+// at every index. Quick (one init run costs ~0.5 CPU-s, dominated by parsing and applying
+// 1.3 MB of CRD yaml): every 3rd index with all three outcomes, except inside the uniform
+// get/create-or-patch loop over the CRDs, where every 9th index gets one rotating outcome.
+// Offsets depend on seed and scenario, so different seeds cover different indices.
+func pick(c *kit.Ctx, scIdx, k int, kind string) []sim.Outcome {
+	if c.Thorough() {
+		return faultOutcomes
+	}
+	s := int((c.Seed%9+9)%9) + scIdx
+	if kind == "CustomResourceDefinition" {
+		if k%9 != s%9 {
+			return nil
+		}
+		return []sim.Outcome{faultOutcomes[(k/9+s)%3]}
+	}
+	if k%3 != s%3 {
+		return nil
+	}
+	return faultOutcomes
+}
+
 func wantScenario(c *kit.Ctx, name string) bool {
 	p := "scn/" + name
 	return c.Only == "" || c.Only == p || strings.HasPrefix(c.Only, p+"/")
@@ -220,7 +249,7 @@ func parallel(n int, items int, fn func(i int)) {
 func main() {
 	debug.SetGCPercent(400)
 	c := kit.New("C20", "fault_enumeration")
-	c.Rule = "12 fixed scenarios = (initial store, init flags): empty; Helm-created secrets without data; only a foreign CA secret; CA + server secret lacking ca.crt; TLS secrets without CA secret; CRDs/webhook configurations with missing or stale caBundle plus an old stored version (migrator); fully initialised by a previous real run (same flags / package upgrade); user-edited StoreConfig, DeploymentRuntimeConfig and Lock; Provider/Configuration/Function pre-installed under custom names from sources with and without registry host, with tag, digest, tag+digest or bare. Requested packages cover host/host:port/no-host x tag/digest/tag+digest/bare. Per scenario: runs 1..3 fault-free, and for every API-call index of run 1 (quick: every 3rd index, offset by seed and scenario) x {500, timeout, applied-but-timeout-returned} an aborted run + clean rerun. Oracles O1 state equality, O2 key material kept, O3 x509 chain/key pair/DNS names, O4 one package object per (kind, registry+repository), O5 defaults untouched, O6 every caBundle authenticates the stored server certificate. distinct = (scenario, run | call index, outcome); non-trivial = the initial store is non-empty or the abort fell at a call index > 0 (and the fault was reached). Not generated (debatable under the property): TLS/CA secrets holding only unusable fragments (e.g. only ca.crt, or a CA certificate without key); a repository requested with a registry host while installed without one or vice versa; repositories whose names collide after DNS-label mangling; user-added entries inside webhook configurations."
+	c.Rule = "12 fixed scenarios = (initial store, init flags): empty; Helm-created secrets without data; only a foreign CA secret; CA + server secret lacking ca.crt; TLS secrets without CA secret; CRDs/webhook configurations with missing or stale caBundle plus an old stored version (migrator); fully initialised by a previous real run (same flags / package upgrade); user-edited StoreConfig, DeploymentRuntimeConfig and Lock; Provider/Configuration/Function pre-installed under custom names from sources with and without registry host, with tag, digest, tag+digest or bare. Requested packages cover host/host:port/no-host x tag/digest/tag+digest/bare. Per scenario: runs 1..3 fault-free, and for every API-call index of run 1 x {500, timeout, applied-but-timeout-returned} an aborted run + clean rerun (quick: every 3rd index x 3 outcomes, but only every 9th index x 1 rotating outcome inside the uniform loop over the CRDs; offsets depend on seed and scenario). Oracles O1 state equality, O2 key material kept, O3 x509 chain/key pair/DNS names, O4 one package object per (kind, registry+repository), O5 defaults untouched, O6 every caBundle authenticates the stored server certificate. distinct = (scenario, run | call index, outcome); non-trivial = the initial store is non-empty or the abort fell at a call index > 0 (and the fault was reached). Not generated (debatable under the property): TLS/CA secrets holding only unusable fragments (e.g. only ca.crt, or a CA certificate without key); a repository requested with a registry host while installed without one or vice versa; repositories whose names collide after DNS-label mangling; user-added entries inside webhook configurations."
 	c.Assumptions = []string{
 		"sim implements the apiserver rules of DESIGN.md 2.2; it applies no defaulting, so defaulting-induced differences between run 1 and run n are not observable",
 		"no CRD of the current tree uses webhook conversion: half of the scenarios add one synthetic CRD (widgets.verif.example.org, strategy Webhook) to a temporary copy of VERIF_REPO_DIR/cluster/crds so that the CA injection of CoreCRDs runs",
@@ -289,16 +318,8 @@ func main() {
 			continue
 		}
 		callsPer[b.sc.Name] = b.calls
-		stride, off := 1, 0
-		if !c.Thorough() {
-			stride = 3
-			off = int((c.Seed + int64(i)) % 3)
-			if off < 0 {
-				off += 3
-			}
-		}
-		for k := off; k < b.calls; k += stride {
-			for _, out := range faultOutcomes {
+		for k := 0; k < b.calls; k++ {
+			for _, out := range pick(c, i, k, b.kinds[k]) {
 				fc := faultCase{b: b, k: k, out: out}
 				if c.Want(fc.name()) {
 					cases = append(cases, fc)
